@@ -73,27 +73,40 @@ def absP (x : K) : K := if x < ((0 : Nat) : K) then -x else x
 def closeTo (sep : K) (a b : Pt K) : Bool :=
   leB (absP (a.1 - b.1)) sep && leB (absP (a.2 - b.2)) sep
 
-/-- the part of the separation loop behind the first vertex: the loop
-`for k in range(n - 2, 0, -1): if close(pt[k], pt[k+1]): idx.pop(k)` compares every interior
-vertex with its **original** successor (`ptx`, `pty` are not updated inside the loop and the
-indices above `k` that were popped do not move index `k`), so vertex `k` (`1 ≤ k ≤ n-2`) is
-dropped exactly when it is close to vertex `k+1`; the last (closing) vertex is never tested -/
-def mergeTail (sep : K) : List (Pt K) → List (Pt K)
-  | a :: b :: rest =>
-      if closeTo sep a b then mergeTail sep (b :: rest) else a :: mergeTail sep (b :: rest)
+/-- one step of `for k in range(n - 2, 0, -1)`: `kept` is the list of vertices kept so far with the
+most recently kept one (`pt[idx[-1]]`, the one of smallest index) first; vertex `v = pt[k]` is
+skipped when both coordinates are within `sep` of that vertex, otherwise it is kept.  On the empty
+list (`idx = [n - 1]` is set up by processing the closing vertex first) the vertex is kept. -/
+def greedyStep (sep : K) (v : Pt K) (kept : List (Pt K)) : List (Pt K) :=
+  match kept with
+  | [] => [v]
+  | j :: _ => if closeTo sep v j then kept else v :: kept
+
+/-- the backward greedy pass over `pt[1:]` (interior vertices followed by the closing vertex): the
+closing vertex is always kept, then `k = n-2, …, 1` are visited in this order, each compared with
+the next vertex that **was kept**; the result lists the kept vertices by increasing index -/
+def greedyKeep (sep : K) (l : List (Pt K)) : List (Pt K) := l.foldr (greedyStep sep) []
+
+/-- `while len(idx) > 1 and close(pt[idx[-1]], pt[0]): idx.pop()`: kept vertices of smallest index
+are removed while they are within `sep` of the first vertex; the last remaining one (the closing
+vertex) is never removed -/
+def dropClose (sep : K) (v0 : Pt K) : List (Pt K) → List (Pt K)
+  | a :: b :: rest => if closeTo sep a v0 then dropClose sep v0 (b :: rest) else a :: b :: rest
   | l => l
 
-/-- the whole separation loop: index `0` is never visited -/
+/-- the whole separation loop (`idx.append(0); idx.reverse()`): the first vertex, then what the
+greedy pass and the `while` loop leave of `pt[1:]`.  (It is only reached with at least three
+entries, the last one being the closing copy of the first.) -/
 def mergeSep (sep : K) : List (Pt K) → List (Pt K)
   | [] => []
-  | v0 :: rest => v0 :: mergeTail sep rest
+  | v0 :: rest => v0 :: dropClose sep v0 (greedyKeep sep rest)
 
 inductive HullErr where
   | negSeparation
   deriving Repr, DecidableEq
 
 /-- `convex_hull(x, y, wcs=None, min_separation=sep)`; the argument check comes first, the
-0- and 1-point returns come before the loop (on them `mergeSep` is the identity anyway) -/
+0- and 1-point returns come before the loop -/
 def convexHull (sep : Option K) (pts : List (Pt K)) : Except HullErr (List (Pt K)) :=
   match sep with
   | none => .ok (hullRaw pts)
